@@ -189,7 +189,7 @@ def _min_error_primal(
     # # Numerical inaccuracies can make it so the trace of the density matrices aren't unital, which messes up with
     # # cvxopt
     # dms = [state / np.trace(state) for state in dms]
-    objective = picos.sum([(picos.trace(probs[i] * dms[i] * measurements[i])) for i in range(n)])
+    objective = picos.sum([(picos.trace(probs[i] * dms[i] * measurements[i])) for i in range(n)]).real
     problem.set_objective("min", objective)
     solution = problem.solve(solver=solver, **kwargs)
     return solution.value, measurements
@@ -214,7 +214,7 @@ def _min_error_dual(
     problem.set_objective("max", picos.trace(y_var))
     solution = problem.solve(solver=solver, **kwargs)
 
-    measurements = [problem.get_constraint(k).dual for k in range(n)]
+    measurements = [problem.get_constraint(k).dual.T for k in range(n)]
 
     return solution.value, measurements
 
@@ -243,7 +243,7 @@ def _unambiguous_primal(
 
     problem.add_list_of_constraints(m | rho == 0 for (m, rho) in zip(measurements, unnormalized_dms))
 
-    problem.set_objective("min", picos.trace(sums_of_unnormalized_dms * inconclusive_measurement))
+    problem.set_objective("min", picos.trace(sums_of_unnormalized_dms * inconclusive_measurement).real)
     solution = problem.solve(solver=solver, **kwargs)
 
     return solution.value, measurements + [inconclusive_measurement]
